@@ -60,6 +60,12 @@ CommitReversed(r, undo) ==
   /\ RCommitReversed(r, undo)
   /\ UNCHANGED <<chain, snap, sy, err>>
 
+Expire(r, batch) ==
+  /\ sy[r].pc = "idle"
+  /\ IsExpireBatch(db[r].tasks, batch)
+  /\ RCommit(r, batch)
+  /\ UNCHANGED <<chain, snap, sy, err>>
+
 Rebuild(r, renumber) ==
   /\ sy[r].pc = "idle"
   /\ RRebuild(r, renumber)
